@@ -193,12 +193,20 @@ def case_tmpdir(tools, total):
     ok = mk(T) if total < PATH_MAX else False
     with open(os.path.join(box, 'conf'), 'w') as fh:
         fh.write('stdin {\n\tmatch all move "%s/dst"\n}\n' % box)
-    env = {'PATH': os.environ.get('PATH', ''), 'HOME': box + '/home', 'TMPDIR': T, 'LD_PRELOAD': tools.shim, 'LC_ALL': 'C'}
+    env = {'PATH': os.environ.get('PATH', ''), 'HOME': box + '/home', 'TMPDIR': T, 'LD_PRELOAD': tools.shim, 'LC_ALL': 'C',
+           'VSHIM_LOG': box + '.log'}
     env.update(proc.PIN)
     before = listing(box)
     r = subprocess.run([tools.mdsort, '-f', os.path.join(box, 'conf'), '-'], input=MSG, capture_output=True, env=env, cwd=box)
     after = listing(box)
     probs = []
+    # the spool is TMPDIR/mdsort-XXXXXXXX (mkdtemp) and its new/ below: no call may name a truncation of either
+    trace = read_trace(box)
+    intended = [T + '/mdsort-XXXXXXXX']
+    for t in trace:
+        if t['kind'] == 'call' and t['name'] == 'mkdtemp' and t['result'].startswith('/'):
+            intended.append(proc.unescape(t['result']).decode('latin-1') + '/new')
+    probs += truncated_calls(trace, intended, len(box) + 8)
     fits = total + 1 + len('mdsort-XXXXXXXX') + 4 < PATH_MAX
     if r.returncode not in (0, 75, 1):
         probs.append('abnormal exit status %r' % r.returncode)
@@ -216,6 +224,446 @@ def case_tmpdir(tools, total):
         probs.append('spool directory left behind (%d characters)' % len(left))
     shutil_rm(box)
     return {'family': 'tmpdir', 'length': total, 'status': r.returncode, 'problems': probs, 'stderr': r.stderr.decode('latin-1')[-160:]}
+
+
+# --------------------------------------------------------------------------
+# boundary sweep of every site that joins or copies a path (limit-3 .. limit+3), with decoys at the truncations
+# --------------------------------------------------------------------------
+
+OLD = 1790000000 - 3 * 86400          # three days before the pinned clock (proc.PIN)
+GENNAME = '1790000000.4242_8.host'    # name maildir_genname produces under proc.PIN (count = 7 % 128 + 1)
+
+
+def chain(prefix, total, width=180):
+    """prefix + '/c/c...' of exactly `total` characters; components of 1..width characters; never ends in '/'."""
+    p, k = prefix, 0
+    assert total == len(p) or total - len(p) >= 2, (len(p), total)
+    while len(p) < total:
+        room = total - len(p) - 1
+        n = min(width, room)
+        if room - n == 1:
+            n -= 1
+        p += '/' + str(k % 10) + 'q' * (n - 1)
+        k += 1
+    assert len(p) == total, (len(p), total)
+    return p
+
+
+def dopen(path):
+    """Descriptor of the directory `path` (absolute, ANY length: walked component by component), created when missing."""
+    fd = os.open('/', os.O_RDONLY | os.O_DIRECTORY)
+    for c in path.split('/'):
+        if not c:
+            continue
+        try:
+            try:
+                os.mkdir(c, 0o700, dir_fd=fd)
+            except FileExistsError:
+                pass
+            nfd = os.open(c, os.O_RDONLY | os.O_DIRECTORY, dir_fd=fd)
+        except OSError:
+            os.close(fd)
+            return None
+        os.close(fd)
+        fd = nfd
+    return fd
+
+
+def dmkdir(path, mtime=None):
+    fd = dopen(path.rstrip('/'))
+    if fd is None:
+        return False
+    os.close(fd)
+    if mtime is not None:
+        d, name = path.rstrip('/').rsplit('/', 1)
+        pfd = dopen(d)
+        os.utime(name, (mtime, mtime), dir_fd=pfd)
+        os.close(pfd)
+    return True
+
+
+def dwrite(path, data, mtime=None):
+    d, name = path.rsplit('/', 1)
+    fd = dopen(d)
+    if fd is None:
+        return False
+    try:
+        f = os.open(name, os.O_WRONLY | os.O_CREAT | os.O_TRUNC, 0o600, dir_fd=fd)
+        os.write(f, data)
+        os.close(f)
+        if mtime is not None:
+            os.utime(name, (mtime, mtime), dir_fd=fd)
+        return True
+    except OSError:
+        return False
+    finally:
+        os.close(fd)
+
+
+def maildir_at(root):
+    return dmkdir(root + '/new') and dmkdir(root + '/cur')
+
+
+def read_trace(box):
+    p = box + '.log'
+    if not os.path.exists(p):
+        return []
+    tr = proc.parse_trace(open(p, encoding='latin-1').read())
+    os.unlink(p)
+    return tr
+
+
+def truncated_calls(trace, intended, floor, legit=()):
+    """Problems for every traced call one of whose path arguments is a truncation of an intended path: a proper prefix that does not
+    end at a component boundary (a prefix ending at a boundary is an ancestor directory, which is legitimate to name).  `legit`:
+    paths of other objects of the scenario that happen to be such prefixes (a sibling message used as decoy)."""
+    ints = [i.encode('latin-1') for i in intended]
+    legit = [x.encode('latin-1') for x in legit]
+    out = []
+    for t in trace:
+        if t['kind'] != 'call':
+            continue
+        for key, v in t['args'].items():
+            if not v.startswith('/'):
+                continue
+            pv = proc.unescape(v)
+            if len(pv) <= floor or pv in legit:
+                continue
+            for i in ints:
+                if len(pv) < len(i) and i.startswith(pv) and i[len(pv):len(pv) + 1] != b'/':
+                    out.append('call %s %s= names the first %d characters of the %d-character path ...%s' %
+                               (t['name'], key, len(pv), len(i), i[-24:].decode('latin-1')))
+                    break
+    return out[:3]
+
+
+def spell(how, P, home):
+    """How path P is written in the configuration: (macro definitions, text between the quotes, extra header of the message,
+    condition that captures the tail)."""
+    if how == 'literal':
+        return '', P, b'', ''
+    if how == 'tilde':
+        assert P.startswith(home + '/')
+        return '', '~' + P[len(home):], b'', ''
+    if how == 'macro':
+        cut = len(P) - 60
+        return 'tail = "%s"\n' % P[cut:], P[:cut] + '${tail}', b'', ''
+    cut = len(P) - 40
+    return '', P[:cut] + '\\1', b'X-Tail: ' + P[cut:].encode() + b'\n', 'header "X-Tail" /^(.*)$/'
+
+
+class Box:
+    """One sandbox: src and dst maildirs, home, tmp, a helper record; runs the real binary under the shim."""
+
+    def __init__(self, tools):
+        self.tools = tools
+        self.box = tools.box()
+        for d in ('src/new', 'src/cur', 'src/tmp', 'dst/new', 'dst/cur', 'tmp', 'home'):
+            os.makedirs(os.path.join(self.box, d))
+        self.home = self.box + '/home'
+        self.tmp = self.box + '/tmp'
+
+    def run(self, conf, args=(), stdin=None, tmpdir=None):
+        with open(self.box + '/conf', 'w', encoding='latin-1') as fh:
+            fh.write(conf)
+        self.conf = conf
+        env = {'PATH': os.environ.get('PATH', ''), 'HOME': self.home, 'TMPDIR': tmpdir or self.tmp, 'LD_PRELOAD': self.tools.shim,
+               'VSHIM_LOG': self.box + '.log', 'LC_ALL': 'C', 'EXECHELPER_OUT': self.box + '/helper.out'}
+        env.update(proc.PIN)
+        self.before = listing(self.box)
+        try:
+            r = subprocess.run([self.tools.mdsort, '-f', self.box + '/conf'] + list(args), input=stdin if stdin is not None else b'',
+                               capture_output=True, env=env, cwd=self.box, timeout=30)
+            self.status, self.err = r.returncode, r.stderr.decode('latin-1')
+        except subprocess.TimeoutExpired:
+            self.status, self.err = 'timeout', ''
+        self.trace = read_trace(self.box)
+        self.helper = []
+        hp = self.box + '/helper.out'
+        if os.path.exists(hp):
+            for line in open(hp, encoding='latin-1').read().split('\n')[:-1]:
+                kv = dict(x.split('=', 1) for x in line.split(' ') if '=' in x)
+                argv = [] if kv.get('argv') == 'none' else [vlib.unhex(a) for a in kv.get('argv', '').split(',')]
+                self.helper.append((argv, vlib.unhex(kv.get('stdin', '-'))))
+            os.unlink(hp)
+        self.after = listing(self.box)
+        self.appeared = sorted(p for p in self.after if p not in self.before)
+        self.gone = sorted(p for p in self.before if p not in self.after)
+
+    def rel(self, path):
+        return './' + path[len(self.box) + 1:]
+
+    def rejected(self, what, probs):
+        """The oracle of a path that does not fit: an error is reported, the exit status is non-zero and nothing was delivered,
+        removed or run - neither at the intended place nor at a decoy."""
+        if self.status == 0:
+            probs.append('%s does not fit but the exit status is 0' % what)
+        if self.status != 0 and not self.err.strip():
+            probs.append('%s does not fit but nothing is reported on stderr' % what)
+        if self.appeared or self.gone:
+            probs.append('%s does not fit but files appeared %s / disappeared %s' %
+                         (what, ['...' + p[-60:] for p in self.appeared[:3]], ['...' + p[-60:] for p in self.gone[:3]]))
+        if self.helper:
+            probs.append('%s does not fit but a command was run (%d times)' % (what, len(self.helper)))
+
+    def result(self, family, length, probs, **kw):
+        res = dict({'family': family, 'length': length, 'status': self.status, 'problems': probs, 'stderr': self.err[-200:],
+                    'config': self.conf if len(self.conf) < 400 else self.conf[:150] + ' ...(%d characters)... ' % len(self.conf) + self.conf[-200:]}, **kw)
+        shutil_rm(self.box)
+        return res
+
+
+def case_maildir_root(tools, n, how):
+    """maildir "R" with len(R) = n: md_root = R (strlcpy, PATH_MAX), md_path = R + "/new", then R + "/cur" (pathjoin, PATH_MAX).
+    The real maildir R exists whatever its length (built through descriptors); when R/new does not fit, a directory holding a decoy
+    message stands at the truncation of R/new and of R/cur to PATH_MAX - 1 characters."""
+    b = Box(tools)
+    R = chain(b.home if how == 'tilde' else b.box + '/m', n)
+    maildir_at(R)
+    fits = n + 4 < PATH_MAX
+    decoys = []
+    if not fits:
+        # the real maildir holds a message (unreachable: no message path below R/new fits when R/new is this long)
+        dwrite(R + '/new/1.host', MSG)
+        for sub in ('/new', '/cur'):
+            t = (R + sub)[:PATH_MAX - 1].rstrip('/')
+            if dmkdir(t) and dwrite(t + '/7.decoy', ws.msg(7)):
+                decoys.append(t)
+    macros, text, _, _ = spell(how, R, b.home)
+    b.run('%smaildir "%s" {\n\tmatch all move "%s/dst"\n}\n' % (macros, text, b.box))
+    probs = []
+    if fits:
+        # an empty maildir: it is walked (new, then cur) under exactly its path and there is nothing to report
+        if b.status != 0 or b.err.strip():
+            probs.append('maildir path of %d characters fits (with /new: %d) but exit status %r, stderr %r' % (n, n + 4, b.status, b.err[-120:]))
+        opened = [proc.unescape(t['args'].get('path', '')).decode('latin-1') for t in b.trace
+                  if t['kind'] == 'call' and t['name'] == 'opendir' and t['errno'] is None]
+        if opened != [R + '/new', R + '/cur']:
+            probs.append('maildir path fits but the directories walked are %s' % ['%d characters ...%s' % (len(o), o[-8:]) for o in opened])
+        if b.appeared or b.gone:
+            probs.append('files appeared %s / disappeared %s' % (b.appeared[:2], b.gone[:2]))
+    else:
+        b.rejected('maildir path of %d characters (with /new: %d)' % (n, n + 4), probs)
+    probs += truncated_calls(b.trace, [R + '/new', R + '/cur'], len(b.box) + 8)
+    return b.result('maildir-root-' + how, n, probs, decoys=len(decoys))
+
+
+def case_message_path(tools, total, decoy):
+    """A message whose path dir + "/" + name has `total` characters (message_parse, pathjoin into me_path).  me_path is what
+    date modified stat()s and what ${path} expands to: a fresh message must never match `date modified > 1 days`, and the helper
+    must get exactly the path.  Decoy at the truncation of the path: an old directory, or a sibling message."""
+    b = Box(tools)
+    name = '1700000000.1_1.' + 'h' * 25
+    R = chain(b.box + '/m', total - 1 - len(name) - 4)
+    maildir_at(R)
+    full = R + '/new/' + name
+    dwrite(full, MSG)
+    over = max(total - (PATH_MAX - 1), 1)
+    trunc = full[:len(full) - over]
+    if decoy == 'dir':
+        dmkdir(trunc, mtime=OLD)
+    else:
+        dwrite(trunc, ws.msg(7))
+    b.run('maildir "%s" {\n\tmatch date modified > 1 days move "%s/dst"\n\tmatch all exec { "%s" "${path}" }\n}\n' % (R, b.box, tools.helper))
+    fits = total < PATH_MAX
+    probs = []
+    want = sorted(([full.encode()] if fits else []) + ([trunc.encode()] if decoy == 'file' else []))
+    got = sorted(a[0] if a else b'' for a, _ in b.helper)
+    if got != want:
+        probs.append('${path} given to the command: %s, expected %s (message path of %d characters)' %
+                     (['%d characters ...%s' % (len(g), g[-12:].decode('latin-1')) for g in got],
+                      ['%d characters ...%s' % (len(g), g[-12:].decode('latin-1')) for g in want], total))
+    if b.appeared or b.gone:
+        probs.append('no message is older than a day, yet files appeared %s / disappeared %s' %
+                     (['...' + p[-50:] for p in b.appeared[:2]], ['...' + p[-50:] for p in b.gone[:2]]))
+    if fits and b.status != 0:
+        probs.append('message path of %d characters fits but exit status %r' % (total, b.status))
+    if not fits:
+        if b.status == 0:
+            probs.append('message path of %d characters does not fit but the exit status is 0' % total)
+        elif not b.err.strip():
+            probs.append('message path does not fit but nothing is reported')
+    probs += truncated_calls(b.trace, [full], len(b.box) + 8, legit=[trunc] if decoy == 'file' else [])
+    return b.result('message-path-decoy-' + decoy, total, probs)
+
+
+def case_destination_decoy(tools, over, how):
+    """move "D" where D + "/new" exceeds PATH_MAX - 1 by `over` characters and its truncation to PATH_MAX - 1 characters is
+    E + "/new" for an existing, empty maildir E (D = E/new, E/new/, E/new/a, ...): nothing may be delivered there."""
+    b = Box(tools)
+    E = chain(b.home if how == 'tilde' else b.box + '/lists', PATH_MAX - 5)
+    maildir_at(E)
+    D = E + '/new' + {4: '', 5: '/', 6: '/a', 7: '/ab', 8: '/abc'}[over]
+    assert (D + '/new')[:PATH_MAX - 1] == E + '/new' and len(D) + 4 == PATH_MAX - 1 + over
+    maildir_at(D.rstrip('/'))
+    macros, text, hdr, cond = spell(how, D, b.home)
+    dwrite(b.box + '/src/new/1.host', MSG.replace(b'\n\n', b'\n' + hdr + b'\n', 1))
+    b.run('%smaildir "%s/src" {\n\tmatch %s move "%s"\n}\n' % (macros, b.box, cond or 'all', text))
+    probs = []
+    b.rejected('destination of %d characters (with /new: %d)' % (len(D), len(D) + 4), probs)
+    probs += truncated_calls(b.trace, [D + '/new'], len(b.box) + 8)
+    return b.result('destination-decoy-' + how, len(D), probs, over=over)
+
+
+def case_set_file(tools, total):
+    """move "D" where D/new fits but the NEW path of the message, D + "/new/" + generated name (message_set_file), has `total`
+    characters: the message is either delivered under exactly that name or left alone, and failure is reported."""
+    b = Box(tools)
+    moved = GENNAME + ':2,'            # a flag-less message delivered by a move gets the (empty) info part
+    D = chain(b.box + '/d', total - 1 - len(moved) - 4)
+    maildir_at(D)
+    dwrite(b.box + '/src/new/1.host', MSG)
+    b.run('maildir "%s/src" {\n\tmatch all move "%s"\n}\n' % (b.box, D))
+    probs = []
+    fits = total < PATH_MAX
+    want = b.rel(D + '/new/' + moved)
+    if b.appeared not in ([], [want]):
+        probs.append('message delivered under another name than the intended one: ...%s' % b.appeared[0][-40:])
+    if len(b.after) != len(b.before):
+        probs.append('number of files changed from %d to %d' % (len(b.before), len(b.after)))
+    if fits and (b.status != 0 or b.appeared != [want]):
+        probs.append('new message path of %d characters fits but exit status %r, delivered %s' % (total, b.status, bool(b.appeared)))
+    if not fits and b.status == 0:
+        probs.append('new message path of %d characters does not fit but the exit status is 0' % total)
+    probs += truncated_calls(b.trace, [D + '/new/' + moved], len(b.box) + 8)
+    return b.result('message-set-file', total, probs)
+
+
+def case_isdirectory(tools, total, how):
+    """match isdirectory "I" with len(I) = total (expr_eval_stat: strlcpy into mh_path; match_interpolate: strlcpy after
+    interpolation; expandtilde at configuration time).  Within the limit I is a directory (the rule applies); beyond it a directory
+    stands at the first PATH_MAX - 1 characters of I."""
+    b = Box(tools)
+    base = b.home if how == 'tilde' else b.box + '/w'
+    if total < PATH_MAX:
+        I = chain(base, total)
+        dmkdir(I)
+    else:
+        I = chain(base, PATH_MAX - 1)
+        dmkdir(I)
+        I += 'z' * (total - (PATH_MAX - 1))
+    macros, text, hdr, cond = spell(how, I, b.home)
+    dwrite(b.box + '/src/new/1.host', MSG.replace(b'\n\n', b'\n' + hdr + b'\n', 1))
+    b.run('%smaildir "%s/src" {\n\tmatch %sisdirectory "%s" move "%s/dst"\n}\n' % (macros, b.box, cond + ' and ' if cond else '', text, b.box))
+    probs = []
+    if total < PATH_MAX:
+        if b.status != 0 or b.gone != ['./src/new/1.host'] or len(b.appeared) != 1 or not b.appeared[0].startswith('./dst/new/'):
+            probs.append('isdirectory path of %d characters fits and is a directory, but exit status %r, appeared %s, disappeared %s' %
+                         (total, b.status, b.appeared[:2], b.gone[:2]))
+    else:
+        b.rejected('isdirectory path of %d characters' % total, probs)
+    probs += truncated_calls(b.trace, [I], len(b.box) + 8)
+    return b.result('isdirectory-' + how, total, probs)
+
+
+def case_exec_tmp(tools, total):
+    """exec stdin body: the body goes through a temporary file TMPDIR + "/mdsort-XXXXXXXX" (writefd, pathjoin) of `total` characters."""
+    b = Box(tools)
+    T = chain(b.box + '/t', total - 1 - len('mdsort-XXXXXXXX'))
+    dmkdir(T)
+    dwrite(b.box + '/src/new/1.host', MSG)
+    b.run('maildir "%s/src" {\n\tmatch all exec stdin body "%s"\n}\n' % (b.box, tools.helper), tmpdir=T)
+    probs = []
+    body = MSG.split(b'\n\n', 1)[1]
+    if total < PATH_MAX:
+        if b.status != 0 or [h[1] for h in b.helper] != [body]:
+            probs.append('temporary file path of %d characters fits but exit status %r, command got %r' % (total, b.status, [h[1][:20] for h in b.helper]))
+    else:
+        b.rejected('temporary file path of %d characters' % total, probs)
+    if b.appeared or b.gone:
+        probs.append('files appeared %s / disappeared %s' % (['...' + p[-40:] for p in b.appeared[:2]], b.gone[:2]))
+    probs += truncated_calls(b.trace, [T + '/mdsort-XXXXXXXX'], len(b.box) + 8)
+    return b.result('exec-tempfile', total, probs)
+
+
+def case_spool_message(tools, total):
+    """stdin mode: the spooled message TMPDIR/mdsort-XXXXXXXX/new/<generated name> has `total` characters (message_parse)."""
+    b = Box(tools)
+    T = chain(b.box + '/t', total - 1 - len(GENNAME) - 4 - 1 - len('mdsort-XXXXXXXX'))
+    dmkdir(T)
+    b.run('stdin {\n\tmatch all move "%s/dst"\n}\n' % b.box, args=['-'], stdin=MSG, tmpdir=T)
+    probs = []
+    if total < PATH_MAX:
+        if b.status != 0 or len(b.appeared) != 1 or not b.appeared[0].startswith('./dst/new/'):
+            probs.append('spooled message path of %d characters fits but exit status %r, delivered %s' % (total, b.status, b.appeared[:1]))
+    else:
+        b.rejected('spooled message path of %d characters' % total, probs)
+    left = subprocess.run(['find', '.', '-name', 'mdsort-*'], cwd=b.box, capture_output=True).stdout.decode('latin-1').strip()
+    if left:
+        probs.append('spool directory left behind')
+    intended = [T + '/mdsort-XXXXXXXX']
+    for t in b.trace:
+        if t['kind'] == 'call' and t['name'] == 'mkdtemp' and t['result'].startswith('/'):
+            root = proc.unescape(t['result']).decode('latin-1')
+            intended += [root + '/new', root + '/new/' + GENNAME]
+    probs += truncated_calls(b.trace, intended, len(b.box) + 8)
+    return b.result('spool-message', total, probs)
+
+
+def pslice_spec(path, siz, beg, end):
+    """pathslice on an absolute normalised path: the components beg..end (negative: from the end; in a range -1 excludes the
+    last component), each preceded by '/' in a range; it fits iff it is shorter than the buffer."""
+    comps = path[1:].split(b'/')
+    n = len(comps)
+    rng = 0 if beg == end else 1
+    if end < 0:
+        end = n + end - rng
+    if beg < 0:
+        beg = n + beg - rng
+    if beg < 0 or beg > end or end < 0 or end >= n:
+        return None
+    res = b''.join(b'/' + c for c in comps[beg:end + 1]) if rng else comps[beg]
+    return res if len(res) < siz else None
+
+
+def unit_paths(rep, sc):
+    """pathjoin / pathslice in-process (ASan + UBSan) at exactly bufsiz, bufsiz - 1 and around, against the Lean model (M pjoin,
+    M pslice) and against the statement `accepted iff the result is shorter than the buffer, and then it is the whole result`."""
+    import evalcommon as ec
+    h, env = ec.harness(sc)
+    reqs, want = [], []
+    for siz in (0, 1, 2, 3, 4, 5, 8, 16, 17, 64, 255, 256, 257, 1024, 4095, 4096, 4097):
+        for total in range(max(1, siz - 3), siz + 4):
+            for dl in sorted({0, 1, (total - 1) // 2, max(total - 2, 0), total - 1}):
+                fl = total - 1 - dl
+                if fl < 0:
+                    continue
+                d = (b'/' + b'd' * 300 + b'/' + b'e' * 5000)[:dl]
+                f = (b'f' * 200 + b'/' + b'g' * 5000)[:fl]
+                reqs.append(('pjoin', str(siz).encode(), d, f))
+                s = d + b'/' + f
+                want.append('OK ' + vlib.hexs(s) if len(s) < siz else 'NONE')
+    shapes = [[3, 4, 3], [1, 1, 1, 1], [200, 3, 24], [250, 255, 3, 255], [180] * 22 + [100, 3, 22], [5], [255], [256, 2],
+              [180] * 22 + [112, 3], [180] * 22 + [113, 3], [180] * 22 + [112, 3, 22], [180] * 22 + [113, 3, 22]]
+    for shape in shapes:
+        path = b''.join(b'/' + bytes([97 + i % 26]) * n for i, n in enumerate(shape))
+        for beg, end in ((0, -1), (0, -2), (-1, -1), (-2, -2), (0, 0), (1, 2), (0, 1), (1, -1), (-3, -1), (2, 1), (0, 9)):
+            full = pslice_spec(path, 1 << 30, beg, end)
+            r = len(full) if full is not None else 4
+            for siz in sorted(set(range(max(0, r - 3), r + 4)) | {256, 4096}):
+                reqs.append(('pslice', path, str(siz).encode(), str(beg).encode(), str(end).encode()))
+                s = pslice_spec(path, siz, beg, end)
+                want.append('NONE' if s is None else 'OK ' + vlib.hexs(s))
+    lines = [vlib.Differential.line(r) for r in reqs]
+    impl = vlib.run_batch([h], lines, env)
+    model = vlib.run_batch([vlib.driver_path()], ['M ' + l for l in lines])
+    bad_spec, bad_model = [], []
+    for r, l, i, m, w in zip(reqs, lines, impl, model, want):
+        if i != w:
+            bad_spec.append((r, l, i, m, w))
+        elif i != m:
+            bad_model.append((r, l, i, m, w))
+    for r, l, i, m, w in bad_spec[:4]:
+        siz = int(r[1] if r[0] == 'pjoin' else r[2])
+        full = r[2] + b'/' + r[3] if r[0] == 'pjoin' else pslice_spec(r[1], 1 << 30, int(r[3]), int(r[4]))
+        what = ('%s with a %d-byte buffer and a full result of %s characters: implementation %s, expected %s' %
+                (r[0], siz, len(full) if full is not None else 'no', i[:40], w[:40]))
+        rep.finding('sanitizer-fault' if i.startswith('FAULT') else 'unlisted',
+                    {'family': 'unit-' + r[0], 'harness': 'h_expr', 'request': l[:300], 'what': [what], 'implementation': i[:200], 'model': m[:200],
+                     'specification': w[:200]})
+    return {'requests': len(reqs), 'pjoin': sum(1 for r in reqs if r[0] == 'pjoin'), 'pslice': sum(1 for r in reqs if r[0] == 'pslice'),
+            'rejected': sum(1 for w in want if w == 'NONE'), 'spec_failures': len(bad_spec), 'model_mismatches': len(bad_model),
+            'model_examples': [{'request': l[:300], 'implementation': i[:100], 'model': m[:100]} for r, l, i, m, w in bad_model[:5]]}
 
 
 def run(rep):
@@ -237,8 +685,33 @@ def run(rep):
     for dlt in win:
         jobs.append(('host', 255 - len('1790000000.4242_8.') - len(':2,FRST') + dlt, None))
         jobs.append(('tmp', PATH_MAX - 1 - len('mdsort-XXXXXXXX') - 4 + dlt, None))
+    # every joining / copying site at limit-3 .. limit+3 (exactly the limit and limit-1 included), decoys at the truncations
+    near = range(-3, 4)
+    for how in ('literal', 'tilde', 'macro'):
+        for n in range(PATH_MAX - 4 - 3, PATH_MAX + 4):          # R + "/new" around PATH_MAX ... R itself around PATH_MAX
+            jobs.append(('root', n, how))
+    for dlt in near:
+        for decoy in ('dir', 'file'):
+            jobs.append(('msg', PATH_MAX + dlt, decoy))
+        for how in ('literal', 'tilde', 'macro', 'interp'):
+            jobs.append(('isdir', PATH_MAX + dlt, how))
+        jobs.append(('setfile', PATH_MAX + dlt, None))
+        jobs.append(('exectmp', PATH_MAX + dlt, None))
+        jobs.append(('spoolmsg', PATH_MAX + dlt, None))
+    for over in (4, 5, 6, 7, 8):
+        for how in ('literal', 'tilde', 'macro', 'interp'):
+            jobs.append(('destdecoy', over, how))
+    NEW = {'root': case_maildir_root, 'msg': case_message_path, 'isdir': case_isdirectory, 'destdecoy': case_destination_decoy}
 
     def do(j):
+        if j[0] in NEW:
+            return NEW[j[0]](tools, j[1], j[2])
+        if j[0] == 'setfile':
+            return case_set_file(tools, j[1])
+        if j[0] == 'exectmp':
+            return case_exec_tmp(tools, j[1])
+        if j[0] == 'spoolmsg':
+            return case_spool_message(tools, j[1])
         if j[0] == 'dest':
             return case_destination(tools, j[1], j[2])
         if j[0] == 'mf':
@@ -252,16 +725,31 @@ def run(rep):
     for r in results:
         fam[r['family']] = fam.get(r['family'], 0) + 1
         if r['problems']:
-            rep.finding('unlisted', {'family': r['family'], 'length': r['length'], 'exit_status': r['status'], 'what': r['problems'][:4], 'stderr': r['stderr']})
+            rep.finding('unlisted', {'family': r['family'], 'length': r['length'], 'exit_status': r['status'], 'what': r['problems'][:4], 'stderr': r['stderr'],
+                                     'config': r.get('config', '')})
+    unit = unit_paths(rep, sc)
+    if unit['model_mismatches'] and not rep.violations:
+        rep.violation({'obligation': 'correspondence util.c (pathjoin, pathslice) <-> Model/Flags.lean', 'disagreements': unit['model_mismatches'],
+                       'examples': unit['model_examples']}, False)
     vlib.lean_conclude(rep)
     rep.coverage.update({
-        'evaluations': len(results),
+        'evaluations': len(results) + unit['requests'],
         'distinct_nontrivial': len([r for r in results if r['status'] != 0]),
         'rule': 'every length in a window of +-8 around the limit for: destination path literal / after ~ expansion / after macro expansion / '
                 'after interpolation (PATH_MAX), generated file name through the host name (NAME_MAX), TMPDIR of the stdin spool (PATH_MAX); real '
                 'binary under the shim with deep directory chains; judged: over the limit => non-zero exit and no file appears or disappears; '
                 'within => delivered exactly at the intended path; no libc call uses a proper prefix of the intended path; non-trivial = runs '
                 'that were rejected',
+        'boundary_rule': 'every site that joins or copies a path, total length limit-3 .. limit+3 (limit-1 must be accepted, limit rejected): maildir '
+                         'root + /new, /cur (literal / ~ / macro; root length up to PATH_MAX+3), message path dir + name (me_path: date modified and '
+                         '${path} witness it), new message path after a move, isdirectory path (literal / ~ / macro / back-reference), temporary file '
+                         'of exec stdin body in TMPDIR, spooled stdin message; destinations whose truncation IS an existing maildir (E/new, E/new/, '
+                         'E/new/a..); a decoy of the expected kind stands at the PATH_MAX-1 truncation (maildir with a message, old directory, '
+                         'sibling message, directory); judged: fits => carried out at exactly the intended path, exit 0; does not fit => non-zero '
+                         'exit, something on stderr, no file appears or disappears, no command run; no traced call names a truncation (prefix cut '
+                         'inside a component) of an intended path; unit: pathjoin/pathslice at bufsiz-3..bufsiz+3 for 17 buffer sizes against '
+                         'Model.pathjoin/pathslice and the statement "accepted iff shorter than the buffer"',
+        'unit_paths': unit,
         'samples': results[:2] + [r for r in results if r['status'] != 0][:2],
         'families': fam,
     })
